@@ -190,6 +190,44 @@ def rejected_builds_in_between(ctx, f, d, rng, wit):
                  % (f.name, got[:16].hex(), rejected, want[:16].hex(), diff_hex(got, want)), wit)
 
 
+def resized_designator(ctx, f, v, b, rng, wit):
+    """read the page, give one designator another size (a longer vendor-specific id, another name string), write it back, read
+    it again: exactly that designator changed"""
+    import copy
+
+    from vmon.spec import datain as D
+
+    try:
+        parsed = f.lib_decode(b, v)
+    except Exception:  # noqa: BLE001
+        return
+    descs = parsed.get("designator_descriptors") or []
+    idx = [i for i, x in enumerate(descs) if x.get("designator_type") in (0, 1, 8)]
+    if not idx:
+        return
+    i = rng.choice(idx)
+    kind = {0: "vendor", 1: "t10", 8: "name"}[descs[i]["designator_type"]]
+    for _ in range(6):
+        dtype, new = D.gen_designator(rng, kind)
+        if len(D.encode_designator(dtype, new)) != len(D.encode_designator(dtype, descs[i]["designator"])):
+            break
+    else:
+        return
+    want = [copy.deepcopy(x["designator"]) for x in descs]
+    want[i] = new
+    descs[i]["designator"] = copy.deepcopy(new)  # every other key (also the stale designator_length) as the parser returned it
+    ctx.count("designators_resized")
+    try:
+        back = f.lib_decode(f.lib_build(parsed), v)
+    except Exception as e:  # noqa: BLE001
+        ctx.fail("C06:inquiry.vpd83.resize_rmw_raises.%s" % type(e).__name__, "write-back after giving a designator another size raised %s" % e, wit, exc=e)
+        return
+    got = [x.get("designator") for x in back.get("designator_descriptors", [])]
+    if len(got) != len(want) or any(D.subset_diff(w, g) for w, g in zip(want, got)):
+        ctx.fail("C06:inquiry.vpd83.resize_rmw", "after one designator (%s) was given another size and the page written back, the page reads as %d designators, expected %d with only that one changed"
+                 % (kind, len(got), len(want)), wit)
+
+
 def built_bytes_are_private(ctx, f, d, wit):
     """what a builder returned is the caller's: padding / patching it in place must not show up in a later build"""
     import copy
@@ -282,6 +320,20 @@ def run(shard, ctx):
         except Exception as e:  # noqa: BLE001
             ctx.fail("C06:%s.build_raises.%s" % (f.name, type(e).__name__), "%s.marshall_datain(parser-vocabulary dict) raised %s: %s" % (f.name, type(e).__name__, e), wit, exc=e)
             built = None
+        if built is not None and f.name.startswith("modesense"):
+            # optional keys present with neutral values (sub_page_code 0 on a page_0 page): the same bytes
+            from vmon.props.c05 import add_neutral_keys
+
+            padded = copy.deepcopy(d)
+            if add_neutral_keys(padded, rng):
+                ctx.count("neutral_optional_keys_builds")
+                try:
+                    if bytes(f.lib_build(padded)) != bytes(built):
+                        ctx.fail("C06:%s.neutral_optional_keys_change_the_build" % f.name, "%s: a page_0 page that also carries sub_page_code 0 builds other bytes" % f.name, wit)
+                except Exception as e:  # noqa: BLE001
+                    ctx.fail("C06:%s.build_raises.%s" % (f.name, type(e).__name__), "%s with neutral optional keys raised %s" % (f.name, e), wit, exc=e)
+        if built is not None and f.name == "inquiry.vpd83" and d.get("designator_descriptors"):
+            resized_designator(ctx, f, v, b, rng, wit)
         if built is not None:
             built_bytes_are_private(ctx, f, d, wit)
             rejected_builds_in_between(ctx, f, d, rng, wit)
